@@ -49,12 +49,16 @@ add("C03", "exploration",
     "every stored unflagged entry with seq > 0 links to the stored entry before it, heights never "
     "decrease, rejected operations left no entry. Exploration over the orders it ran (quick ~17 000 "
     "deliveries, thorough ~700 000); every 10th history on a file database. The thorough tier repeats ~25 histories and one "
-    "all-permutations set under valgrind memcheck (bundled C SQLite underneath).",
+    "all-permutations set under valgrind memcheck (bundled C SQLite underneath). A second stage "
+    "(mode=concurrent) lets 2-4 concurrent writers on clones of one file-backed, multi-connection "
+    "store deliver slices / permutations of the same log (400 rounds quick, 12 000 thorough) and "
+    "checks the chain invariants once all writers have joined.",
     "Authors (and the attacker key) never equivocate, as the statement requires. Acceptance of "
     "prune-flagged operations is C05's subject and not judged here. The prune step is applied only "
     "after a completed ingest (C04 covers the pipeline doing otherwise).",
-    quick=[st("vh-store")],
+    quick=[st("vh-store"), st("vh-store", args=["mode=concurrent"])],
     thorough=[st("vh-store", timeout=3 * 3600),
+              st("vh-store", args=["mode=concurrent"], timeout=3 * 3600),
               st("vh-store", mode="valgrind", scale=0.002, args=["threads=2"], timeout=3 * 3600)],
     design_ref="DESIGN.md §1 C03")
 
@@ -66,11 +70,17 @@ add("C05", "exploration",
     "(mostly reversed) order, with duplicates and late lone prune-flagged operations; small logs in "
     "every permutation. Exploration over the delivery orders it ran; the case the statement singles "
     "out (older prune-flagged operation after a newer prune point) is what counts as non-trivial "
-    "(quick >= 1 000 distinct such histories).",
+    "(quick >= 1 000 distinct such histories). A second stage (mode=concurrent): 2-4 concurrent "
+    "writers on clones of one file-backed, multi-connection store, one delivering the newer prune "
+    "point while another delivers the older prune-flagged operation of the same log (400 rounds "
+    "quick, 12 000 thorough, random yields/sleeps); judged only at quiescence: no entry below the "
+    "highest prune point whose ingest and prune step completed. Interleavings are the ones the "
+    "scheduler produced (counts of overlapped / ordered rounds are in the evidence), not all.",
     "The prune step is issued by the harness exactly as the pipeline does after a completed ingest. "
     "Node-level delivery (import) is not part of this stage.",
-    quick=[st("vh-store")],
-    thorough=[st("vh-store", timeout=3 * 3600)],
+    quick=[st("vh-store"), st("vh-store", args=["mode=concurrent"])],
+    thorough=[st("vh-store", timeout=3 * 3600),
+              st("vh-store", args=["mode=concurrent"], timeout=3 * 3600)],
     design_ref="DESIGN.md §1 C05")
 
 add("C08", "exploration",
